@@ -258,6 +258,37 @@ def translate_all() -> dict:
     return translators.run_all(REPO, COQ / "Gen")
 
 
+GENREF = COQ / "GenRef"
+
+
+def refresh_genref() -> list[str]:
+    """Copy the tables just regenerated from the (unchanged) repository to coq/GenRef/*.v.ref (committed)."""
+    GENREF.mkdir(exist_ok=True)
+    names = []
+    for f in sorted((COQ / "Gen").glob("*.v")):
+        write_if_changed(GENREF / (f.name + ".ref"), f.read_text())
+        names.append(f.name)
+    for f in GENREF.glob("*.v.ref"):
+        if f.name[:-4] not in names:
+            f.unlink()
+    return names
+
+
+def install_genref_fallback() -> list[str]:
+    """Search mode only.  A translator that fails closed leaves no table, so nothing that imports the table
+    builds - including the models the search for a failing input needs.  The reference copy of the table (what
+    the translator produced for the unchanged tree, committed under coq/GenRef) is put in its place so that the
+    correspondence run can go on and look for a concrete input; the broken tie itself has already been
+    registered as a violation by the caller and is not undone by this."""
+    used = []
+    for f in sorted(GENREF.glob("*.v.ref")) if GENREF.exists() else []:
+        dst = COQ / "Gen" / f.name[:-4]
+        if not dst.exists():
+            dst.write_text(f.read_text())
+            used.append(dst.name)
+    return used
+
+
 def make(targets: Sequence[str] = (), timeout: int = 1500) -> subprocess.CompletedProcess:
     with _Lock("make.lock"):
         coq_project()
@@ -576,7 +607,17 @@ def proof_stage(ctx: Ctx, rel: str, *, allowed_axioms: Sequence[str] = ()) -> Th
         ctx.add_violation(Violation(
             signature=f"{ctx.prop}/theorem-does-not-check",
             what=f"proof obligation in {rel} no longer checks against the current source tables/model",
-            replay={"theorem_file": rel, "log": rep.log}, no_input=True))
+            replay={"theorem_file": rel, "log": rep.log,
+                    "translators": {k: v for k, v in gen.items() if str(v).startswith("TRANSLATOR FAILED")}},
+            no_input=True))
+        if any(str(v).startswith("TRANSLATOR FAILED") for v in gen.values()):
+            used = install_genref_fallback()
+            if used:
+                ctx.coverage["gen_fallback_for_search"] = used
+                ctx.notes.append("source tables " + ", ".join(used) + " could not be regenerated; the committed "
+                                 "reference copies were used ONLY to keep the models executable while searching "
+                                 "for a concrete failing input")
+                make(["-k", rel[:-2] + ".vo"])
     else:
         extra = [a for a in axioms if a not in allowed_axioms]
         if extra or any(v == "<missing>" for v in rep.assumptions.values()):
